@@ -42,6 +42,19 @@ func init() {
 	badPairs[[2]string{"ident", "() block"}] = true
 	badPairs[[2]string{"|", "|"}] = true
 	badPairs[[2]string{"/", "*"}] = true
+
+	// pairs that also fuse when re-tokenized
+	for _, a := range []string{"#", "-", "number", "@"} {
+		// "--" starts an identifier, a unit, an at-keyword or a hash
+		badPairs[[2]string{a, "-->"}] = true
+	}
+	badPairs[[2]string{"#", "-"}] = true      // "#-" is a hash
+	badPairs[[2]string{"-", "-"}] = true      // "--" is an identifier
+	badPairs[[2]string{"number", "%"}] = true // "1%" is a percentage
+	badPairs[[2]string{"/", "*="}] = true     // "/*" starts a comment
+	badPairs[[2]string{"|", "|="}] = true     // "||" is one token
+	badPairs[[2]string{"|", "||"}] = true
+	badPairs[[2]string{"<", "!"}] = true // "<!" followed by "--" is "<!--"
 }
 
 func Serialize(l []Token) string {
